@@ -188,6 +188,9 @@ def run(facts, tier):
     import staleidx
     staleidx.rule(facts, res, "C14-7", lambda f: f["crate"] in ("xml_info", "xml_dom"), floor=7)
     c14_8(facts, res)
+    # "selects, orders and de-duplicates exactly as on a fresh parse": queries order by the order *key* (not by creation id)
+    from props import c07
+    c07.summary_rule(facts, res, "C14-9")
     return res
 
 
